@@ -50,6 +50,18 @@ structure Issues (cfg : Cfg) (now : Int) (ca : CaCtx) (vm : ValidMft) (ext : Ext
   crl : vm.checkCrl c = true
   depth : ca.chainLen + 1 ≤ cfg.maxDepth
 
+theorem Acc.addPayload_items (a : Acc) (items : List Item) (x : Int) (i : Item)
+    (h : i ∈ (a.addPayload items x).items) : i ∈ a.items ∨ i ∈ items := by
+  unfold Acc.addPayload at h
+  split at h
+  · exact Or.inl h
+  · exact List.mem_append.mp h
+
+theorem Acc.addPayload_kids (a : Acc) (items : List Item) (x : Int) :
+    (a.addPayload items x).kids = a.kids := by
+  unfold Acc.addPayload
+  split <;> rfl
+
 theorem processObjectX_items (cfg : Cfg) (now : Int) (ca : CaCtx) (vm : ValidMft) (pd : List Int)
     (ext : Ext) (content : Content) (a : Acc) (i : Item)
     (h : i ∈ (processObjectX cfg now ca vm pd ext content a).items) :
@@ -61,7 +73,7 @@ theorem processObjectX_items (cfg : Cfg) (now : Int) (ca : CaCtx) (vm : ValidMft
     split at h
     · rename_i hc
       simp only [Bool.and_eq_true] at hc
-      rcases List.mem_append.mp h with h | h
+      rcases Acc.addPayload_items _ _ _ _ h with h | h
       · exact Or.inl h
       · exact Or.inr (.router c items rfl rfl hc.1.1 hc.1.2 hc.2 h)
     · exact Or.inl h
@@ -69,17 +81,15 @@ theorem processObjectX_items (cfg : Cfg) (now : Int) (ca : CaCtx) (vm : ValidMft
     split at h
     · rename_i hc
       simp only [Bool.and_eq_true] at hc
-      split at h
+      rcases Acc.addPayload_items _ _ _ _ h with h | h
       · exact Or.inl h
-      · rcases List.mem_append.mp h with h | h
-        · exact Or.inl h
-        · exact Or.inr (.roa c items rfl rfl hc.1 hc.2 h)
+      · exact Or.inr (.roa c items rfl rfl hc.1 hc.2 h)
     · exact Or.inl h
   case asa.asa c items =>
     split at h
     · rename_i hc
       simp only [Bool.and_eq_true] at hc
-      rcases List.mem_append.mp h with h | h
+      rcases Acc.addPayload_items _ _ _ _ h with h | h
       · exact Or.inl h
       · exact Or.inr (.asa c items rfl rfl hc.1.1 hc.1.2 hc.2 h)
     · exact Or.inl h
@@ -112,9 +122,18 @@ theorem processObjectX_kids (cfg : Cfg) (now : Int) (ca : CaCtx) (vm : ValidMft)
               · simpa using h3
               · omega
               · simpa using h
-  case cer.router c items => split at h <;> exact Or.inl h
-  case roa.roa c items => (repeat' split at h) <;> exact Or.inl h
-  case asa.asa c items => split at h <;> exact Or.inl h
+  case cer.router c items =>
+    split at h
+    · rw [Acc.addPayload_kids] at h; exact Or.inl h
+    · exact Or.inl h
+  case roa.roa c items =>
+    split at h
+    · rw [Acc.addPayload_kids] at h; exact Or.inl h
+    · exact Or.inl h
+  case asa.asa c items =>
+    split at h
+    · rw [Acc.addPayload_kids] at h; exact Or.inl h
+    · exact Or.inl h
 
 /-! ## Walking a list of objects -/
 
